@@ -85,3 +85,19 @@ prop("C04", shards=16, fuzz=[("FuzzC04", 120)],
                 "harness/ref/snbt.Malformed. Not generated because readings differ between Minecraft versions or are not claimed: "
                 "bare true/false, .5 / 5., exponents, \\n-style escapes, '[B ;' with a space, unquoted tokens starting with a digit or "
                 "sign (values and keys), integers with leading zeros, non-finite floats.")
+
+prop("C06", shards=16,
+     technique="rapid property-based testing of generated field schemas against an independent wire-layout writer, with generated prior states of the decode destination",
+     rule="Packets of 1..8 generated fields over a schema ADT: every exported leaf type (Boolean..Long, Float, Double, String, VarInt, "
+          "VarLong, Position over the signed 26/12/26 cube incl. corners, Angle, UUID, ByteArray, PluginMessageData in last position, "
+          "BitSet, FixedBitSet(n), NBT via any and via RawMessage, Option), Ary with each of the 8 length-prefix types over 10 element "
+          "types (incl. Option[String] and a harness struct implementing Field), Option/OptionEncoder/OptionDecoder, Opt with *bool / "
+          "func() bool and field / func() field, Tuple; nesting <= 3. Destination pre-state: zero, or a previously held value that is "
+          "longer / shorter / has spare capacity. Oracle: WriteTo bytes == reference layout; WriteTo n == bytes produced; ReadFrom "
+          "from bytes+sentinel yields the value (absent Option via Pointer()), n == bytes consumed == field length, independent of "
+          "the pre-state; Marshal/Builder data == concatenation; Scan returns the fields in order. Non-trivial: schema depth >= 2 or "
+          "a pre-state of different length / spare capacity. Distinct: hash of the JSON case.",
+     level_text="Sampled schemas and values, bounded nesting and sizes (strings/arrays up to 32767 bytes rarely).",
+     level_note="Trusted: harness/ref/wire + ref/leb + ref/nbt. NBT fields written from a Go map keep compounds to one key and avoid "
+                "[]any of int8/int32/int64 (key order unspecified / typed-array rule) so that the byte comparison is meaningful; "
+                "RawMessage-backed NBT fields carry arbitrary trees.")
